@@ -146,7 +146,7 @@ def Item.marked : Item → Bool
   | .callableHead l lineArg _ _ _ => l == lineArg
   | .callableTail | .inlineDefTail | .textTagHead | .hdr _ | .none_ | .blanks _ => true
   | .inherit _ | .inlineDefHead _ _ _ _ | .cacheHead _ _ | .callHead _ | .callTail _ | .textTagTail _ => true
-  | .finish _ plain _ returns retObs mark => plain || mark || (returns && !retObs)
+  | .finish _ plain _ returns retObs mk => plain || mk || (returns && !retObs)
   | .mid _ obs _ => !obs
   | .stub _ _ | .blockCall _ _ | .cacheTail _ _ | .mark _ | .metaAssign => false
 
